@@ -191,6 +191,18 @@ fn scenario(c: &C03Case, reg: Arc<Mutex<Registry>>, totals: Arc<(AtomicU64, Atom
                 r2.lock().unwrap().close(false);
                 return;
             }
+            // asking for end-of-stream with the window still in hand is legal (a consumer that
+            // holds a partial record): the answer must be "no" while there is data or a writer
+            if rounds % 3 == 1 {
+                let e = rs.eof();
+                if e && !rb.is_empty() {
+                    r2.lock().unwrap().fails.push((
+                        "C03/eof-with-window-held".to_string(),
+                        format!("eof() answered true while a read window of {} samples was held", rb.len()),
+                    ));
+                }
+                hpoint();
+            }
             for t in &tags {
                 let abs = consumed + t.pos() as u64;
                 if t.pos() >= rb.len() || *t.val() != TagValue::U64(abs) {
